@@ -370,6 +370,48 @@ func (workingMem *WorkingMemory) ResetVariable(variable *Variable) bool {
 	return reseted
 }
 
+// ResetAliases will reset the evaluated status of every expression that reads, under another spelling, the data
+// the specified variable addresses. Two variables may address the same data when their paths are equal except
+// for array/map selectors, as two different selector texts (or, on a JSON object, a member name and a selector)
+// can denote the same element. Variables whose paths contain no selector are not affected.
+func (workingMem *WorkingMemory) ResetAliases(variable *Variable) bool {
+	reseted := false
+	for _, vari := range workingMem.variableSnapshotMap {
+		if vari != variable && mayAlias(vari, variable) {
+			if workingMem.ResetVariable(vari) {
+				reseted = true
+			}
+		}
+	}
+
+	return reseted
+}
+
+// mayAlias checks whether two different variable nodes can address the same data. It walks both paths from the
+// last step to the root; a selector step matches any selector or member name, other steps must have equal names.
+func mayAlias(a, b *Variable) bool {
+	selectorSeen := false
+	for a != nil && b != nil {
+		if a == b {
+
+			return selectorSeen
+		}
+		if a.Variable == nil || b.Variable == nil {
+
+			return selectorSeen && a.Variable == nil && b.Variable == nil && a.Name == b.Name
+		}
+		if a.ArrayMapSelector != nil || b.ArrayMapSelector != nil {
+			selectorSeen = true
+		} else if a.Name != b.Name {
+
+			return false
+		}
+		a, b = a.Variable, b.Variable
+	}
+
+	return false
+}
+
 // ResetAll sets all expression evaluated status to false.
 // Returns true if any expression was reset, false if otherwise
 func (workingMem *WorkingMemory) ResetAll() bool {
